@@ -315,6 +315,31 @@ def font_bytes(rng):
                                                     rng.choice([0, 1, 16, 0xffffffff]), rng.choice([0, 8, 9, 0xffffffff]))
     return bytes(d)
 
+def tdf_font_record(name, ftype, glyphs, bs_delta=0):
+    """one well-formed TheDraw font record (id, name, type, spacing, block size, 94 offsets, glyph block)"""
+    block = b''; offs = [0xFFFF] * 94
+    for idx, gl in glyphs:
+        offs[idx] = len(block); block += gl
+    rec = b'\x55\xaa\x00\xff' + bytes([len(name)]) + name.ljust(12, b'\0') + b'\0\0\0\0' + bytes([ftype, 1])
+    rec += struct.pack('<H', (len(block) + bs_delta) & 0xffff) + b''.join(struct.pack('<H', o) for o in offs) + block
+    return rec
+
+def tdf_structured():
+    """small valid TDF files (1 and 2 fonts, block / colour glyphs), every truncation of each, and the same files with the
+    block-size field larger / smaller than the data (so a glyph can run past the end of the file)"""
+    hdr = b'\x13TheDraw FONTS file\x1a'
+    g_block = bytes([2, 2]) + b'AB\rCD\0'; g_color = bytes([2, 1]) + b'A\x1fB\x20\0'; g_long = bytes([3, 1]) + b'XYZ\0'
+    files = []
+    for delta in (0, 1, 7, 300, -1, -5):
+        files.append(hdr + tdf_font_record(b'ONE', 1, [(0, g_long)], delta))
+        files.append(hdr + tdf_font_record(b'ONE', 1, [(0, g_block), (5, g_block)]) + tdf_font_record(b'TWO', 2, [(1, g_color)], delta))
+        files.append(hdr + tdf_font_record(b'OUT', 0, [(2, g_block)], delta))
+    out = []
+    for f in files:
+        for k in range(len(f) + 1):
+            if k < 20 or k >= 200 or k % 16 == 0: out.append(f[:k])   # skip most cuts inside the offset table
+    return out
+
 def tdf_bytes(rng):
     d = bytearray(g.random_bytes(rng)) + bytearray(rng.randrange(256) for _ in range(rng.randrange(300)))
     r = rng.random()
@@ -439,6 +464,8 @@ def search(ctx, broken):
         add('c2sauce ' + g.hexs(d), 'SauceData::extract', 'sauce')
         add('c2font ' + g.hexs(font_bytes(rng)), 'BitFont::from_bytes', 'font')
         add('c2tdf ' + g.hexs(tdf_bytes(rng)), 'TheDrawFont::from_tdf_bytes', 'tdf')
+    for d in tdf_structured():
+        add('c2tdf ' + g.hexs(d), 'TheDrawFont::from_tdf_bytes', 'tdf-structured')
     res = ctx.impl(cases)
     failures = []
     counts = {}
